@@ -81,6 +81,17 @@ def _pack_res(p):
         return [1, core.classify_exception(e)]
 
 
+def _unpack(cls, octs):
+    """K.unpack from bytes or -- every third input, and half of the inputs of 512 octets or more -- from a bytearray
+    (a receive buffer) that is overwritten after the call: the decoded object must not depend on it any more"""
+    if (len(octs) + sum(octs[:8])) % 3 and not (len(octs) >= 512 and sum(octs[:8]) % 2):
+        return cls.unpack(bytes(octs))
+    buf = bytearray(octs)
+    p = cls.unpack(buf)
+    buf[:] = b"\xa5" * len(buf)
+    return p
+
+
 # ---- EOF
 def _eof(a):
     conf = h5._conf(a[0], a[1])
@@ -145,6 +156,9 @@ def _kind_of(op):
 
 
 def impl(op, a):
+    if 1306 <= op <= 1309:
+        from harness.props import c06h
+        return c06h.impl(op, a)
     kn, sub = _kind_of(op)
     if kn is not None:
         k = KINDS[kn]
@@ -154,14 +168,14 @@ def impl(op, a):
         if sub == 1:
             return [list(k["mk"](a)[0].pack())]
         if sub == 2:
-            return k["fields"](k["cls"].unpack(bytes(a[0])))
+            return k["fields"](_unpack(k["cls"], a[0]))
         if sub == 3:
-            return [list(k["cls"].unpack(bytes(a[0])).pack())]
+            return [list(_unpack(k["cls"], a[0]).pack())]
         if sub == 4:
             p, _ = k["mk"](a)
             b = p.pack()
             sfx = a[k["nargs"]] if len(a) > k["nargs"] else []
-            p2 = k["cls"].unpack(bytes(b) + bytes(sfx))
+            p2 = _unpack(k["cls"], list(b) + list(sfx))
             try:
                 eq = [int(p2 == p)]
             except Exception as e:  # noqa  (EntityIdTlv.__eq__ can raise)
@@ -432,9 +446,23 @@ def streams(tier, rng):
         cases.append((1300, [ids, flags, [0] * 4, [0, 0], [0]])); cases.append((1311, [ids, flags, [4, 0, 0]]))
         cases.append((1316, [ids, flags, [0]])); cases.append((1321, [ids, flags, [0]]))
     yield "eof_checksum_fault_lengths", "exact", cases
+    # 4b. size sweep: every fault-location length 0..255 (+ 256 refused) for every (CRC, large); packet lengths
+    #     straddle 256; special octet patterns in the entity ID
+    cases = []
+    for n in range(0, 257):
+        if not big and 16 < n < 246 and n % 2 and n % 64 not in (63, 1):
+            continue
+        for crc, large in (itertools.product((0, 1), (0, 1)) if big or n < 10 else [(rng.randrange(2), rng.randrange(2))]):
+            ids, flags = _rand_conf(rng, crc=crc, large=large)
+            fl = [1] + [rng.choice([0x00, 0x80, 0xFF, 0x7F, rng.randrange(256)]) for _ in range(n)]
+            a = [ids, flags, [rng.choice([0, 0x80, 0xFF, rng.randrange(256)]) for _ in range(4)], [_rand_size(rng, large), rng.randrange(16)], fl]
+            cases.append((1304, a + [[]]))
+            if n % 16 in (0, 15) or n > 250:
+                cases.append((1301, a)); cases.append((1300, a))
+    yield "sizes_eof_fault_location", "exact", cases
     # 5. random PDUs: pack, round trip, round trip with look-alike suffix, decode of layout ++ suffix
     cases = []
-    for _ in range(8000 if big else 900):
+    for _ in range(8000 if big else 800):
         for kn in KINDS:
             a = _rand_pdu(kn, rng)
             sfx = _suffix(rng)
@@ -546,6 +574,10 @@ def streams(tier, rng):
         if rng.random() < 0.3:
             cases.append((B[rng.choice(list(KINDS))] + 3, [d]))
     yield "garbage", "verdict", cases
+    # 10. operation histories (harness/props/c06h.py, model Run/DirHist.v)
+    from harness.props import c06h
+    for st in c06h.streams_for(["eof", "ack", "prompt", "ka"], tier, rng, "a"):
+        yield st
 
 
 # ------------------------------------------------------------------ oracle
@@ -594,6 +626,9 @@ def _check_decoded(kn, name, b, ires):
 def oracle(case, ires, sres):
     """The property itself, evaluated on the implementation's observable behaviour."""
     op, a = case
+    if 1306 <= op <= 1309:
+        from harness.props import c06h
+        return c06h.oracle(case, ires, sres)
     err = ires[0][0] == 1
     code = ires[0][1] if err else None
     kn, sub = _kind_of(op)
